@@ -415,6 +415,22 @@ func checkC20(p *Prog, r *Report) {
 	r.Rule("R20.7", "When the triggered check of a pair that was nominated before it was valid succeeds, the controlled agent selects it exactly when nothing is selected, or another pair is selected and (priorities need not be checked or the selected pair's priority is not greater): an accepted renomination of an equal-priority pair is not dropped (table shared with C03 R3.1; that the nomination value is ignored on this path is the known finding F7).", 4)
 	checkControlledDeferredTable(p, r)
 
+	// ---- R20.9 values are issued in the order they are sent ---------------------------------------------------------
+	r.Rule("R20.9", "A nomination value is drawn from the generator inside the task that sends the request carrying it: getNominationValue is called only from functions that run inside the task loop (never from an API goroutine before the task is submitted), so two overlapping renominations cannot put a lower value on the wire after a higher one.", 1)
+	if gnv := p.Fn("Agent.getNominationValue"); r.Anchor("Agent.getNominationValue", gnv != nil) {
+		ci := p.Contexts()
+		n := 0
+		for _, e := range p.Callers(gnv) {
+			n++
+			f := e.Caller
+			outside := ci.Has(f, CtxAPI) || ci.Has(f, CtxGo)
+			r.Check(!outside, "nomination value drawn in "+f.Name, p.Pos(e.Site.Pos()), "inside the task loop: "+strings.Join(ci.List(f), ","), "the nomination value is drawn in "+f.Name+", which can run outside the task loop ("+strings.Join(ci.List(f), ",")+"): drawing the value and sending the request are no longer one step, so a renomination that drew its value first can be sent last — the controlled agent keeps the higher value's pair while the controlling agent switches back on the late response")
+		}
+		if n == 0 {
+			r.Fail("callers of getNominationValue", p.Pos(gnv.Body.Pos()), "the generator is never consulted (rule instance lost)")
+		}
+	}
+
 	// ---- R20.8 an outstanding nomination stays answerable ------------------------------------------------------
 	r.Rule("R20.8", "The list of outstanding transactions is changed only by the sender (append), the expiry filter, the matching response (removal of the matched entry) and the wipes (Restart, Failed, construction): nothing else forgets an outstanding request, so the success response to any nomination that was sent and has not expired — an older renomination included — is still matched and acted upon by the controlling agent when the controlled agent accepted it.", 4)
 	{
